@@ -94,7 +94,9 @@ def formulas_for(g, e, tabs, t):
   """Formula texts for a column of table t, built from the shapes the statement lists, using the
   tables / columns that exist right now."""
   rng = g.rng
-  cols = [c for c in tabs[t][0] if c[0] != "manualSort"]
+  # (the summary helper column `group` holds record sets whose text form names internal helper
+  # columns; it is used through the dedicated $group shapes below only)
+  cols = [c for c in tabs[t][0] if c[0] not in ("manualSort", "group")]
   names = [c[0] for c in cols]
   nums = [c[0] for c in cols if c[1] in ("Int", "Numeric")] or names
   refs = [(c[0], c[1].split(":")[1]) for c in cols if c[1].startswith("Ref:")]
@@ -103,7 +105,7 @@ def formulas_for(g, e, tabs, t):
   out = []
   pick = lambda xs: rng.choice(xs)
   def colof(u):
-    cs = [c[0] for c in tabs[u][0] if c[0] != "manualSort"]
+    cs = [c[0] for c in tabs[u][0] if c[0] not in ("manualSort", "group")]
     return pick(cs) if cs else "id"
   if names:
     a, b = pick(nums), pick(names)
@@ -296,21 +298,21 @@ def diagnose(e):
               bound = [x[0] for x in v]
           for b in bound:
             if hasattr(b, "col_id") and table.all_columns.get(b.col_id) is not b:
-              out["detached_sort_columns"].append("%s.%s reads detached %s" % (t, cid, b.col_id))
+              out["detached_sort_columns"].append({"table": t, "helper": cid, "column": b.col_id})
           for kid in col._sort_col_ids:
             kc = table.all_columns.get(kid)
             if kc is None:
-              out["unreadable_lookup_keys"].append("%s.%s sort column %s missing" % (t, cid, kid))
+              out["unreadable_lookup_keys"].append({"table": t, "helper": cid, "column": kid, "why": "missing"})
             elif any(isinstance(kc.raw_get(r), objtypes.RaisedException) for r in table.row_ids):
-              out["unreadable_lookup_keys"].append("%s.%s sort column %s holds errors" % (t, cid, kid))
+              out["unreadable_lookup_keys"].append({"table": t, "helper": cid, "column": kid, "why": "errors"})
         elif isinstance(col, _lookup.LookupMapColumn):
           for k in col._mapping._col_ids_tuple:
             kid = _lookup.extract_column_id(k)
             kc = table.all_columns.get(kid)
             if kc is None:
-              out["unreadable_lookup_keys"].append("%s.%s key column %s missing" % (t, cid, kid))
+              out["unreadable_lookup_keys"].append({"table": t, "helper": cid, "column": kid, "why": "missing"})
             elif any(isinstance(kc.raw_get(r), objtypes.RaisedException) for r in table.row_ids):
-              out["unreadable_lookup_keys"].append("%s.%s key column %s holds errors" % (t, cid, kid))
+              out["unreadable_lookup_keys"].append({"table": t, "helper": cid, "column": kid, "why": "errors"})
       except Exception as ex:
         out.setdefault("diagnosis_errors", []).append("%s.%s: %r" % (t, cid, ex))
   return out
@@ -366,11 +368,16 @@ def classify(detail, bundle, history=()):
     return "after-rolled-back-bundle"
   if any("ReplaceTableData" == a[0] for b in history for a in b):
     return "history-needs-ReplaceTableData"
-  if sorted_shape and diag.get("detached_sort_columns"):
+  def names_a(entries, c):
+    """the entries whose column is named (as a word) in the formula of differing cell c"""
+    words = set(re.findall(r"[A-Za-z_][A-Za-z_0-9]*", c["formula"] or ""))
+    return [x for x in entries if x["column"] in words]
+  detached = diag.get("detached_sort_columns") or []
+  if sorted_shape and detached and all(names_a(detached, c) for c in cells):
     return "sorted-lookup-reads-detached-column"
-  if lookup_shape and diag.get("unreadable_lookup_keys"):
-    kinds = sorted(set("missing" if x.endswith("missing") else "errors"
-                       for x in diag["unreadable_lookup_keys"]))
+  unreadable = diag.get("unreadable_lookup_keys") or []
+  if lookup_shape and unreadable and all(names_a(unreadable, c) for c in cells):
+    kinds = sorted(set(x["why"] for c in cells for x in names_a(unreadable, c)))
     return "lookup-helper-stale:key-or-sort-column-" + "+".join(kinds)
   shapes2 = sorted(set(("summary:" if "_summary_" in c["table"] else "") + formula_shape(c["formula"])
                        for c in cells))
